@@ -96,12 +96,35 @@ def run_workers(pid, cases, workers, timeout_s, tag):
     results = {}
     harness_errors = []
     deadline = time.time() + timeout_s
+    # A worker that produces no new result for `stall_s` is hung inside one case (e.g. a livelock in the code under test): that
+    # case is reported as a failure. Running out of the *global* budget while workers still make progress is a harness error
+    # (exit 2), never a violation.
+    stall_s = max(600.0, timeout_s / 3.0)
+    last_size = {id(p): (-1, time.time()) for p, *_ in procs}
+    stalled, over_budget = set(), False
+    while any(p.poll() is None for p, *_ in procs):
+        time.sleep(1.0)
+        now = time.time()
+        for p, shard, fout, ferr in procs:
+            if p.poll() is not None:
+                continue
+            size = os.path.getsize(fout) if os.path.exists(fout) else 0
+            if size != last_size[id(p)][0]:
+                last_size[id(p)] = (size, now)
+            elif now - last_size[id(p)][1] > stall_s:
+                stalled.add(id(p))
+                p.kill()
+        if now > deadline:
+            over_budget = True
+            for p, *_ in procs:
+                if p.poll() is None:
+                    p.kill()
+            break
     for p, shard, fout, ferr in procs:
-        try:
-            p.wait(timeout=max(1.0, deadline - time.time()))
-        except subprocess.TimeoutExpired:
-            p.kill()
-            p.wait()
+        p.wait()
+    if over_budget:
+        harness_errors.append(f"time budget of {timeout_s}s exceeded while workers were still making progress (machine too slow or too loaded); not a verdict")
+    for p, shard, fout, ferr in procs:
         done = set()
         if os.path.exists(fout):
             for line in open(fout):
@@ -126,12 +149,14 @@ def run_workers(pid, cases, workers, timeout_s, tag):
                 pass
             if p.returncode == 3:
                 harness_errors.append(f"worker harness error:\n{tail}")
+            elif missing and over_budget and id(p) not in stalled:
+                pass
             elif missing:
                 # killed on timeout or crashed: the first unfinished case is the culprit candidate
                 c = missing[0]
                 results[c["id"]] = {
                     "id": c["id"],
-                    "failures": [{"kind": "no_result", "detail": f"worker rc={p.returncode} (timeout or crash) while running this case; log tail: {tail[-600:]}"}],
+                    "failures": [{"kind": "no_result", "detail": f"worker rc={p.returncode} ({'no progress for %ds: hung' % stall_s if id(p) in stalled else 'crash'}) while running this case; log tail: {tail[-600:]}"}],
                     "transitions": 0, "traces": 0, "outcome": "no_result", "dev": 0.0,
                 }
                 for c in missing[1:]:
